@@ -1,5 +1,5 @@
 (** C02 — parsing never drops, duplicates or reorders tokens. Pinned statements only. *)
-From Sq Require Import Base.Bytes Apply.Model Apply.Proofs.
+From Sq Require Import Base.Bytes Apply.Model Apply.Proofs Apply.Interleave.
 
 (** For every token array and every well-formed match result (any depth, any width),
     [MatchResult::apply] does not panic and the non-meta leaves of what it builds are exactly
@@ -72,3 +72,18 @@ Theorem C02_wrap_WF : forall n x k,
   wf n (wrap x (MKind k)) = true.
 Proof. exact wrap_wf. Qed.
 Print Assumptions C02_wrap_WF.
+
+(** Refinement of [C02_apply_leaves]: the complete leaf sequence, metas included, is the token
+    sequence of the span with every meta [Meta k p] exactly at the boundary before token [p]. *)
+Theorem C02_apply_interleave : forall ts x r,
+  wf (N.of_nat (length ts)) x = true -> apply ts x = Some r ->
+  IL ts (mr_start x) (mr_end x) (obs_l r).
+Proof. exact apply_il. Qed.
+Print Assumptions C02_apply_interleave.
+
+Theorem C02_root_interleave : forall ts m ch,
+  ts <> [] -> wf_root ts m = true ->
+  root_parse ts (GOk m) = Some (POk (Node K_File ch)) ->
+  IL ts 0 (N.of_nat (length ts)) (obs_l ch).
+Proof. exact root_parse_il. Qed.
+Print Assumptions C02_root_interleave.
